@@ -29,15 +29,17 @@
 (***************************************************************************)
 EXTENDS OutputRef, Json
 
-CONSTANTS Scens,       \* pipelines: set of [srcs: sources per plot, obj: the source is an object with a
-                       \* write method, grouped: the grouped variant of the chain]
-          MaxRuns, MaxTouch,
-          Settings,    \* set of [m1, m2, lo, po]: modes of the two Writes ("check", "existing_unchanged",
-                       \* "overwrite"), overwrite of LaTeXToPDF and of PDFToPNG
+CONSTANTS Plans,       \* what is explored: set of pipelines with their bounds
+                       \* [srcs: sources per plot, obj: the source is an object with a write method,
+                       \*  grouped: the grouped variant of the chain, runs, touch: bounds on the runs and on
+                       \*  the touches before a run, sets: which option settings ("All", "Quick", "Default",
+                       \*  "Options"), reuses: "Both" | "Fresh" | "Reused"]
+                       \* settings are [m1, m2, lo, po]: modes of the two Writes ("check",
+                       \* "existing_unchanged", "overwrite"), overwrite of LaTeXToPDF and of PDFToPNG;
+                       \* reuse FALSE = the pipeline objects are built anew for every run, TRUE = the same
+                       \* objects run again and again (plain chain only: GroupBy keeps its groups);
+                       \* the properties must hold both ways
           CreatedSetsChanged,
-          Reuses,      \* subset of BOOLEAN: FALSE = the pipeline objects are built anew for every run,
-                       \* TRUE = the same objects run again and again (plain chain only: GroupBy keeps
-                       \* its groups); the properties must hold both ways
           AutoReload,  \* TRUE: a reused RenderLaTeX renders the template file as it is now (jinja2 checks
                        \* the file); FALSE: it keeps the template it loaded first - TLC refutes AllCurrent
           KeepHistory
@@ -76,21 +78,38 @@ SettingsQuick == SettingsDefault \cup
 Plain(n) == [srcs |-> [p \in 1..n |-> 1], obj |-> [p \in 1..n |-> FALSE], grouped |-> FALSE]
 Group(s) == [srcs |-> s, obj |-> [p \in 1..Len(s) |-> FALSE], grouped |-> TRUE]
 WithObj(o) == [srcs |-> [p \in 1..Len(o) |-> 1], obj |-> o, grouped |-> FALSE]
-ScenPlain1 == {Plain(1)}
-ScenPlain2 == {Plain(2)}
-ScenPlain3 == {Plain(3)}
-ScenGroup2 == {Group(<<2>>)}
-ScenGroup3 == {Group(<<3>>)}
-ScenGroupMix == {Group(<<2, 2>>), Group(<<2, 3>>)}
-ScenObj == {WithObj(<<TRUE>>), WithObj(<<TRUE, FALSE>>)}
-ScenQuickMC == {Plain(1), Group(<<2>>), WithObj(<<TRUE>>)}
-\* exported sets
-ScenExpB == {Plain(1), Group(<<2>>)}
-ScenExpC == {Plain(2), WithObj(<<TRUE>>), WithObj(<<TRUE, FALSE>>), Group(<<2, 2>>)}
-ScenExpF == {Group(<<3>>), Group(<<2, 2>>), Group(<<2, 3>>), WithObj(<<TRUE>>), WithObj(<<TRUE, FALSE>>), WithObj(<<FALSE, TRUE, FALSE>>)}
+\* a pipeline with its bounds (one TLC run explores a whole set of plans)
+Plan(s, r, t, sets, reuses) == [srcs |-> s.srcs, obj |-> s.obj, grouped |-> s.grouped,
+                                runs |-> r, touch |-> t, sets |-> sets, reuses |-> reuses]
+SetsOf(name) == CASE name = "All" -> SettingsAll [] name = "Quick" -> SettingsQuick
+                  [] name = "Default" -> SettingsDefault [] name = "Options" -> SettingsQuick \ SettingsDefault
+ReusesOf(name) == CASE name = "Both" -> {FALSE, TRUE} [] name = "Fresh" -> {FALSE} [] name = "Reused" -> {TRUE}
+MaxRuns == sc.runs
+MaxTouch == sc.touch
+Obj1 == WithObj(<<TRUE>>)
+Obj2 == WithObj(<<TRUE, FALSE>>)
+Obj3 == WithObj(<<FALSE, TRUE, FALSE>>)
+\* model checking
+PlansQuickMC == {Plan(Plain(1), 3, 99, "All", "Both"), Plan(Group(<<2>>), 3, 2, "Quick", "Fresh"),
+                 Plan(Obj1, 3, 2, "Quick", "Both")}
+PlansThoroughMC1 == {Plan(Plain(1), 4, 99, "All", "Both")}
+PlansThoroughMC2 == {Plan(Plain(2), 3, 2, "All", "Both"), Plan(Group(<<2>>), 3, 99, "Quick", "Fresh")} \cup
+                    {Plan(s, 3, 2, "Quick", "Both") : s \in {Group(<<3>>), Group(<<2, 2>>), Group(<<2, 3>>), Obj1, Obj2, Obj3}}
+PlansPinned == {Plan(Plain(1), 3, 99, "Default", "Fresh"), Plan(Group(<<2>>), 2, 99, "Default", "Fresh")}
+PlansNoReload == {Plan(Plain(1), 3, 99, "Default", "Reused")}
+\* export (quick: the harness replays one deterministic half of the plain histories with reused objects)
+PlansQuickExport == {Plan(Plain(1), 3, 2, "Default", "Fresh"), Plan(Plain(1), 2, 2, "Options", "Fresh"),
+                     Plan(Group(<<2>>), 2, 2, "Quick", "Fresh"), Plan(Group(<<2>>), 3, 1, "Default", "Fresh"),
+                     Plan(Plain(2), 2, 2, "Default", "Fresh"), Plan(Obj1, 2, 2, "Default", "Fresh"),
+                     Plan(Obj2, 2, 2, "Default", "Fresh"), Plan(Group(<<2, 2>>), 2, 2, "Default", "Fresh")}
+PlansThoroughExport1 == {Plan(Plain(1), 3, 3, "Default", "Both"), Plan(Plain(1), 3, 2, "Options", "Both"),
+                         Plan(Plain(1), 2, 99, "All", "Both"), Plan(Plain(2), 3, 2, "Default", "Both"),
+                         Plan(Plain(3), 2, 2, "Quick", "Both")}
+PlansThoroughExport2 == {Plan(Group(<<2>>), 3, 2, "Default", "Fresh"), Plan(Group(<<2>>), 2, 99, "Quick", "Fresh")} \cup
+                        {Plan(s, 2, 2, "Quick", "Both") : s \in {Group(<<3>>), Group(<<2, 2>>), Group(<<2, 3>>), Obj1, Obj2, Obj3}}
 
-Init == /\ sc \in Scens /\ set \in Settings
-        /\ reuse \in {r \in Reuses : sc.grouped => ~r} /\ cached = 0
+Init == /\ sc \in Plans /\ set \in SetsOf(sc.sets)
+        /\ reuse \in {r \in ReusesOf(sc.reuses) : sc.grouped => ~r} /\ cached = 0
         /\ dataVer = [p \in 1..Len(sc.srcs) |-> [m \in 1..sc.srcs[p] |-> 1]] /\ tplVer = 1
         /\ files = [p \in 1..Len(sc.srcs) |-> [csv |-> [m \in 1..sc.srcs[p] |-> Absent], tex |-> Absent,
                                                pdf |-> Absent, png |-> Absent]]
